@@ -101,7 +101,7 @@ def plugins_of(args: List[str]) -> List[str]:
     return out
 
 
-def run_build_command(args: List[str], out_dir: str, repo: str, hashseed: str = "0", optimise: bool = False) -> Tuple[int, str]:
+def run_build_command(args: List[str], out_dir: str, repo: str, hashseed: str = "0", optimise: bool = False, ascii_locale: bool = False) -> Tuple[int, str]:
     """Run one build-path invocation with its output redirected to out_dir (the only change made to the command)."""
     clean = []
     skip = False
@@ -122,6 +122,8 @@ def run_build_command(args: List[str], out_dir: str, repo: str, hashseed: str = 
     env = dict(os.environ, PYTHONPATH=repo, PYTHONDONTWRITEBYTECODE="1", PYTHONHASHSEED=hashseed)
     if optimise:
         env["PYTHONOPTIMIZE"] = "1"
+    if ascii_locale:
+        env.update(gen.ASCII_LOCALE_ENV)
     try:
         p = subprocess.run([gen.PY, "-m", "generator"] + clean + ["--output-dir", out_dir, "--test-dir", td], cwd=repo, env=env, capture_output=True, text=True, timeout=900)
         return p.returncode, (p.stdout + p.stderr)[-3000:]
@@ -165,10 +167,13 @@ def main(argv: List[str]) -> int:
         if not ({"python", "rust"} & set(pl)):
             continue
         ref_files = {t: find_file(os.path.join(tmp, f"cmd{ci}"), t) for t in ("lsprotocol/types.py", "lsprotocol/src/lib.rs")}
-        for sd in ("1", "2", "3", "O"):
+        for sd in ("1", "2", "3", "O", "L"):
             od = os.path.join(tmp, f"cmd{ci}-seed{sd}")
             # "O": the same command with PYTHONOPTIMIZE=1 (assert statements compiled away) under hash seed 0
-            rc_, log_ = run_build_command(c, od, REPO, hashseed="0" if sd == "O" else sd, optimise=sd == "O")
+            # "L": the same command in a process whose default text encoding is ASCII (C locale, UTF-8 mode off) under hash seed 0
+            rc_, log_ = run_build_command(c, od, REPO, hashseed="0" if sd in ("O", "L") else sd, optimise=sd == "O", ascii_locale=sd == "L")
+            if rc_ != 0 and sd in ("O", "L"):
+                run.violation(f"regen:cmd{ci}:{'python-O' if sd == 'O' else 'ascii-locale'}:exit", f"`python -m generator {' '.join(c)}` fails (exit {rc_}) " + ("under PYTHONOPTIMIZE=1" if sd == "O" else "in a process whose default text encoding is ASCII (LC_ALL=C, PYTHONUTF8=0)") + f": {log_.strip().splitlines()[-1][:200] if log_.strip() else ''}", {"command": c, "exit": rc_, "log": log_[-1200:], "environment": "PYTHONOPTIMIZE=1" if sd == "O" else gen.ASCII_LOCALE_ENV}, True)
             seed_runs += 1
             for tail, ref in ref_files.items():
                 other = find_file(od, tail)
@@ -179,6 +184,9 @@ def main(argv: List[str]) -> int:
                     first = next((l for l in difflib.unified_diff(a_, b_, "PYTHONHASHSEED=0", f"PYTHONHASHSEED={sd}", n=0, lineterm="") if l[:1] in "+-" and l[:3] not in ("+++", "---")), "")
                     if sd == "O":
                         run.violation(f"regen:{tail.split('/')[-1]}:python-O", f"`python -O -m generator {' '.join(c)}` writes a different {tail} than without -O (first difference: {first[:160]})", {"command": c, "first_difference": first, "replay": f"PYTHONOPTIMIZE=1 python -m generator {' '.join(c)} --output-dir <scratch>; cmp with the normal output"}, True)
+                        continue
+                    if sd == "L":
+                        run.violation(f"regen:{tail.split('/')[-1]}:ascii-locale", f"`python -m generator {' '.join(c)}` writes a different {tail} in a process whose default text encoding is ASCII (first difference: {first[:160]})", {"command": c, "first_difference": first, "environment": gen.ASCII_LOCALE_ENV, "replay": f"LC_ALL=C PYTHONUTF8=0 PYTHONCOERCECLOCALE=0 python -m generator {' '.join(c)} --output-dir <scratch>; cmp with the normal output"}, True)
                         continue
                     run.violation(f"regen:{tail.split('/')[-1]}:hash-seed", f"`python -m generator {' '.join(c)}` writes a different {tail} under PYTHONHASHSEED={sd} than under 0 (first difference: {first[:160]}): the committed file cannot be 'what the generator emits'", {"command": c, "seeds": ["0", sd], "first_difference": first, "replay": f"PYTHONHASHSEED={sd} python -m generator {' '.join(c)} --output-dir <scratch>; cmp with the PYTHONHASHSEED=0 output"}, True)
             shutil.rmtree(od, ignore_errors=True)
